@@ -422,7 +422,13 @@ func (s *Netceptor) DialContext(ctx context.Context, node string, service string
 			_ = qs.Close()
 			_ = pc.Close()
 		case <-doneChan:
-			return
+			// The stream was closed by its user. The ephemeral socket under the QUIC connection
+			// has to stay until that connection has ended, and must be released then.
+			select {
+			case <-qc.Context().Done():
+			case <-s.context.Done():
+			}
+			_ = pc.Close()
 		}
 	}()
 	conn := &Conn{
